@@ -7,8 +7,8 @@ import (
 	"unsafe"
 )
 
-// Under -race the hand-off must be invisible to the detector: spin on a plain word
-// inside norace functions instead of using a channel (which would be a happens-before edge).
+// Under -race the hand-off must be invisible to the detector: spin on a plain word inside norace
+// functions instead of using a channel (which would be a happens-before edge).
 type parker struct{ flag int32 }
 
 func newParker() parker { return parker{} }
@@ -28,16 +28,47 @@ const RaceEnabled = true
 
 var ioSync uint64
 
-// Mirrors internal/poll's ioSync: every socket write releases, every socket read acquires.
+// RaceIORelease / RaceIOAcquire mirror syscall.Write / syscall.Read on unix: every write of a
+// stream socket releases, every successful read acquires one global word (syscall.ioSync).
+// Datagram sendto/recvfrom carry no annotation in the Go runtime, and neither do they here.
+//
+//go:norace
 func RaceIORelease() { runtime.RaceReleaseMerge(unsafe.Pointer(&ioSync)) }
+
+//go:norace
 func RaceIOAcquire() { runtime.RaceAcquire(unsafe.Pointer(&ioSync)) }
+
+// RaceFDSync mirrors internal/poll.fdMutex: every operation on one descriptor performs atomic
+// read-modify-write operations on the descriptor's state word, which orders all operations on
+// the same descriptor for the detector.
+//
+//go:norace
+func RaceFDSync(p *uint64) {
+	runtime.RaceAcquire(unsafe.Pointer(p))
+	runtime.RaceReleaseMerge(unsafe.Pointer(p))
+}
+
+//go:norace
 func RaceWriteRange(p unsafe.Pointer, n int) {
 	if n > 0 {
 		runtime.RaceWriteRange(p, n)
 	}
 }
+
+//go:norace
 func RaceReadRange(p unsafe.Pointer, n int) {
 	if n > 0 {
 		runtime.RaceReadRange(p, n)
 	}
 }
+
+var teardownSync uint64
+
+// raceTeardownRelease / raceTeardownAcquire: everything a goroutine of a finished world did
+// happens before what the driver does next (the next world re-initialises package-level state).
+//
+//go:norace
+func raceTeardownRelease() { runtime.RaceReleaseMerge(unsafe.Pointer(&teardownSync)) }
+
+//go:norace
+func raceTeardownAcquire() { runtime.RaceAcquire(unsafe.Pointer(&teardownSync)) }
